@@ -32,6 +32,19 @@ CLAIMED = {
              'schedules of the races are whatever the OS produces (validated, not enumerated); one 1-D form family.',
         technique='TLA+ protocol model + TLC (safety, liveness, negative control) + real crash injection at every modelled crash point + TLC trace validation of hook events from real concurrent compilations',
         design_ref='3 C20'),
+    'C13': dict(
+        text='spec/VFormCache.tla is the in-process cache as a state machine (pre-seeded shipped assemblers, key lookup per '
+             'mode); TLC checks Sound/Functional over all request sequences on an abstract one-token-mutant universe (pre-fix '
+             'key and mode-less key as negative controls) and, instantiated with key/source classes measured on the real code '
+             '(vf.hash(), compile.generate per mode, shipped freshness), over all sequences of length <= 2 (3 thorough) of an '
+             '85-form universe covering every attribute the property names; every behaviour with a cache hit is replayed on '
+             'the real compile_vform (C compiler stubbed); shipped assemblers/genericasm.pxi are regenerated and compared; '
+             'source -> module name is checked functional, injective and stable across PYTHONHASHSEED values.',
+        note='Universe is the finite list in harness/forms.py; the identity of an assembler is its generated source up to '
+             'numbering of temporaries and order of statements inside a function (the generator itself is nondeterministic '
+             'in that respect); the C compiler is stubbed in replay (the disk half is C20).',
+        technique='TLA+ cache state machine (VFormCache.tla) checked by TLC on abstract and measured key/source tables + replay of TLC behaviours into the real compile_vform',
+        design_ref='3 C13'),
 }
 
 NOT_BUILT = 'specification module not built yet (see DESIGN.md section 6); not claimed with a weaker technique'
